@@ -33,7 +33,14 @@ type RenderContext struct {
 	sandboxed          bool                       // Flag indicating if this context is sandboxed
 	lastLoadedTemplate *Template                  // The template that created this context (for resolving relative paths)
 	macroLibs          map[string]map[string]Node // for a macro brought in by from-import: all macros of its library (its siblings)
+	evalDepth          int                        // nesting depth of the expression being evaluated
 }
+
+// maxExpressionDepth bounds the depth of an expression tree that is evaluated.
+// Evaluation recurses once per level, and a chain such as 1+1+1+... or
+// x.a.a.a... is as deep as it is long although it is parsed without recursion;
+// a source with a million terms overflowed the stack, which cannot be recovered.
+const maxExpressionDepth = 10000
 
 // contextMapPool is a pool for the maps used in RenderContext
 var contextMapPool = sync.Pool{
@@ -121,6 +128,7 @@ func NewRenderContext(env *Environment, context map[string]interface{}, engine *
 	ctx.macroLibs = nil
 	ctx.sandboxed = false
 	ctx.lastLoadedTemplate = nil
+	ctx.evalDepth = 0
 
 	// Copy the context values directly
 	if context != nil {
@@ -416,6 +424,7 @@ func (ctx *RenderContext) Clone() *RenderContext {
 	newCtx.blockLevel = 0
 	newCtx.parent = ctx
 	newCtx.inParentCall = false
+	newCtx.evalDepth = 0
 
 	// Inherit sandbox state
 	newCtx.sandboxed = ctx.sandboxed
@@ -805,6 +814,17 @@ func (ctx *RenderContext) evaluateExpressionLazy(node Node) (interface{}, error)
 	if node == nil {
 		return nil, nil
 	}
+	if ctx.evalDepth >= maxExpressionDepth {
+		return nil, fmt.Errorf("expression nested more than %d levels deep", maxExpressionDepth)
+	}
+	ctx.evalDepth++
+	value, err := ctx.evaluateNode(node)
+	ctx.evalDepth--
+	return value, err
+}
+
+// evaluateNode does the work of evaluateExpressionLazy
+func (ctx *RenderContext) evaluateNode(node Node) (interface{}, error) {
 
 	// Check sandbox security if enabled
 	if ctx.sandboxed && ctx.env.securityPolicy != nil {
